@@ -1,5 +1,6 @@
 import Passage.Driver.Common
 import Passage.Codec.Packets
+import Passage.Codec.Nbt
 namespace Passage.Driver.C09
 open Passage Passage.Driver Passage.Codec
 
@@ -26,6 +27,28 @@ def outcomeStr {α} (f : α → String) : Outcome α → String
   | .err e => "err " ++ e.name
   | .panic s => "panic " ++ s
 
+mutual
+/-- prefix notation: `S <hex>` string, `B <n>` byte, `C <k>` followed by k × (`<hex name>` value) -/
+def parseNbt : Nat → List String → Option (Nbt × List String)
+  | 0, _ => none
+  | _ + 1, "S" :: h :: r => (hex? h).map fun b => (.str b, r)
+  | _ + 1, "B" :: v :: r => v.toNat?.map fun n => (.byte (UInt8.ofNat n), r)
+  | f + 1, "C" :: n :: r => do
+    let k ← n.toNat?
+    let (es, r') ← parseEntries f k r
+    some (.compound es, r')
+  | _, _ => none
+def parseEntries : Nat → Nat → List String → Option (NbtEntries × List String)
+  | _, 0, r => some (.nil, r)
+  | 0, _, _ => none
+  | f + 1, k + 1, name :: r => do
+    let nb ← hex? name
+    let (v, r1) ← parseNbt f r
+    let (es, r2) ← parseEntries f k r1
+    some (.cons nb v es, r2)
+  | _, _, _ => none
+end
+
 def handle : List String → Option String
   | ["c09.varint", i] => do
     let i ← i.toInt?
@@ -45,6 +68,11 @@ def handle : List String → Option String
     match encodePacket p vs with
     | some b => some s!"id={p.id} {Hex.encode b}"
     | none => some "ill-typed"
+  | "c09.nbt" :: toks => do
+    -- a configuration-phase Disconnect whose reason is this compound text component
+    let (n, rest) ← parseNbt (toks.length + 1) toks
+    if rest ≠ [] then none else
+    some s!"id=2 {Hex.encode n.encodeNet}"
   | ["c09.dec", name, h] => do
     let p ← findPacket name
     let b ← hex? h
